@@ -27,7 +27,7 @@ pub fn gen_case(seed: u64, focus: &str) -> Value {
         risky: focus == "C06",
         id_prefix: String::new(),
         ties: matches!(focus, "C17" | "C12" | "C14") && g.chance(2, 3),
-        sentinels: matches!(focus, "C01" | "C17" | "C06" | "C03" | "C04"),
+        sentinels: true,
         nonzero_diagonal: focus == "C06",
     };
     let (instance, summary) = gen_instance(&mut g, &opts);
